@@ -47,7 +47,7 @@ func c10Gen(seed uint64, tier string) any {
 	g := NewProgGen(r.Fork(), o)
 	base := "{}"
 	func() {
-		ds.VerifSortedRange = true
+		ds.VerifSortedRange = false // Range is sorted by the library itself since the C06 fix; the real loop runs
 		m := &Meter{Budget: 200_000, HugeLimit: 1 << 20}
 		m.Install()
 		defer Uninstall()
@@ -390,7 +390,7 @@ func c10Exec(raw json.RawMessage, res *RunResult) {
 		return
 	}
 	dg := &Digest{}
-	ds.VerifSortedRange = true
+	ds.VerifSortedRange = false // Range is sorted by the library itself since the C06 fix; the real loop runs
 	ResetGlobals(1)
 	m := &Meter{Budget: 100_000, HugeLimit: 4 << 20}
 	m.Install()
